@@ -319,12 +319,18 @@ def run_check(tier, seed):
         cov["evaluations"] += inp["evaluations"]
         cov["distinct_nontrivial"] += inp["nontrivial"]
         for f in inp["failures"]:
-            path = engine.write_replay("C18", {"inproc": "c18", "seed": seed, "failure": f}, f, prefix="fail-inproc")
+            path = engine.write_replay("C18", {"inproc": "c18", "mode": "c18", "n": 20000 if tier == "quick" else 2000000,
+                                               "seed": seed, "failure": f}, f, prefix="fail-inproc")
             print("VIOLATION property=C18 replay=%s" % path)
             print("  " + f["detail"][:600])
             code = 1
             ev["violations"] += 1
     else:
         cov["inproc"] = {"disabled": "in-process crate does not build against /repo: " + msg[-400:]}
+    from .. import fuzz
+    fv = []
+    fcode = fuzz.campaign("C18", {"meta": (400000, 8000000, 300)}, tier, seed, cov, fv)
+    ev["violations"] += len(fv)
+    code = max(code, fcode) if code != 1 else 1
     ev["wall_s"] = round(time.time() - t0, 2)
     return code, ev
